@@ -30,7 +30,7 @@ fn days_to_ymd(days: i64) -> (i32, u32, u32) {
 
 /// Convert (year, month, day) to days since Unix epoch
 fn ymd_to_days(year: i32, month: u32, day: u32) -> i64 {
-    let y = if month <= 2 { year - 1 } else { year } as i64;
+    let y = year as i64 - if month <= 2 { 1 } else { 0 };
     let m = if month <= 2 { month + 12 } else { month };
     let era = if y >= 0 { y } else { y - 399 } / 400;
     let yoe = (y - era * 400) as u32;
@@ -130,14 +130,15 @@ fn components_to_ts(
 
     // Calculate days, allowing day overflow
     let base_days = ymd_to_days(norm_year, norm_month, 1);
-    let total_days = base_days + (day - 1) as i64;
+    let total_days = base_days + day as i64 - 1;
 
     let time_ms = hour as i64 * MS_PER_HOUR
         + minute as i64 * MS_PER_MINUTE
         + second as i64 * MS_PER_SECOND
         + ms as i64;
 
-    (total_days * MS_PER_DAY + time_ms) as f64
+    // In floating point: years up to +-2^31 are accepted and overflow 64-bit milliseconds
+    total_days as f64 * MS_PER_DAY as f64 + time_ms as f64
 }
 
 const WEEKDAY_NAMES: [&str; 7] = ["Sun", "Mon", "Tue", "Wed", "Thu", "Fri", "Sat"];
